@@ -640,7 +640,15 @@ func runCases(t *testing.T, out *verifOut, stream string, apply func(string) str
 		}
 	}
 	if rp := os.Getenv("VERIF_REPLAY"); rp != "" {
-		emitCase("replay", readOps(t, rp))
+		// a replay file may belong to another stream of this engine: keep the ops this harness knows
+		var mine []string
+		for _, op := range readOps(t, rp) {
+			switch k := strings.Fields(op)[0]; {
+			case stream == "ids" && k == "idecho", stream == "msg" && (k == "encdec" || k == "decenc" || k == "casedec" || k == "werr" || k == "fuzzdec"):
+				mine = append(mine, op)
+			}
+		}
+		emitCase("replay", mine)
 		return
 	}
 	if dir := os.Getenv("VERIF_CORPUS"); dir != "" {
@@ -741,7 +749,7 @@ func TestVerifWireMsg(t *testing.T) {
 	defer out.close()
 	r := verifRng(19)
 	runCases(t, out, "msg", wireApply, msgTags, func(emit func(string, []string)) {
-		n := verifN(1500, 60000)
+		n := verifN(4000, 80000)
 		for c := 0; c < n; c++ {
 			var ops []string
 			for i := 0; i < 4; i++ {
@@ -793,7 +801,7 @@ func TestVerifWireIds(t *testing.T) {
 			sweep = append(sweep, "idecho "+jBig(new(big.Int).Neg(new(big.Int).Add(max, big.NewInt(d))).String()).tok())
 		}
 		emit("sweep", sweep)
-		n := verifN(3000, 150000)
+		n := verifN(8000, 150000)
 		for c := 0; c < n; c++ {
 			var ops []string
 			for i := 0; i < 8; i++ {
